@@ -283,6 +283,16 @@ public:
         if (s || !sys) return s;
         xstr j = u16(joinUri(u8(base), u8(sys)));
         d.side("JOIN\t" + escx(j));
+        joining = true;
+        s = serve(j.c_str());
+        joining = false;
+        if (s) return s;
+        // last resort (document delivered from a temp file or stdin has another base): same last path segment
+        std::string want = u8(sys); size_t sl = want.rfind('/'); if (sl != std::string::npos) want = want.substr(sl + 1);
+        for (size_t i = 0; i < cs->ents.size(); i++) {
+            const std::string& k = cs->ents[i].first; size_t q = k.rfind('/');
+            if ((q == std::string::npos ? k : k.substr(q + 1)) == want) { xstr kk = u16(k); return serve(kk.c_str()); }
+        }
         return serve(j.c_str());
     }
     InputSource* serve(const XMLCh* sys) {
